@@ -42,21 +42,28 @@ def stage_mc(ctx):
             raise ToolError("TLC did not complete cleanly on %s (%s): the specification itself is inconsistent "
                             "(this is independent of the code under test)\n%s" % (mc["module"], r["violated"], r["out"][-4000:]))
         for lit in r["printed"].get("VEC", []):
-            vectors.append(json.loads(lib.parse_tla_string(lit)))
+            v = json.loads(lib.parse_tla_string(lit))
+            v["_vh"] = mc.get("vh", ctx.pid)
+            vectors.append(v)
         log("MC %s: %d distinct states, %d generated, %d vectors, %.1fs" % (mc["module"], r["distinct"], r["states"], len(r["printed"].get("VEC", [])), r["wall"]))
     return vectors
 
 
-def stage_replay(ctx, vectors):
+def stage_replay(ctx, allvectors):
+    for vh in sorted(set(v["_vh"] for v in allvectors)):
+        stage_replay_one(ctx, vh, [{k: x for k, x in v.items() if k != "_vh"} for v in allvectors if v["_vh"] == vh])
+
+
+def stage_replay_one(ctx, vh, vectors):
     if not vectors:
         return
     wd = ctx.wd
-    vf = os.path.join(wd, "vectors.jsonl")
+    vf = os.path.join(wd, "vectors.%s.jsonl" % vh)
     with open(vf, "w") as f:
         for v in vectors:
             f.write(json.dumps(v) + "\n")
-    rf = os.path.join(wd, "replay.jsonl")
-    rc, out, dt = lib.run([lib.VH, "replay", ctx.pid, vf, rf], timeout=ctx.cfg.get("replay_timeout", 3600), env=ctx.env)
+    rf = os.path.join(wd, "replay.%s.jsonl" % vh)
+    rc, out, dt = lib.run([lib.VH, "replay", vh, vf, rf], timeout=ctx.cfg.get("replay_timeout", 3600), env=ctx.env)
     if rc != 0:
         raise ToolError("vh replay failed rc=%s\n%s" % (rc, out[-3000:]))
     summary = None
@@ -65,7 +72,7 @@ def stage_replay(ctx, vectors):
         if r.get("summary"):
             summary = r
         elif r.get("fail"):
-            ctx.failures.append(dict(source="replay", **{k: r[k] for k in ("in", "exp", "obs")}))
+            ctx.failures.append(dict(source="replay", vh=vh, **{k: r[k] for k in ("in", "exp", "obs")}))
     if summary is None:
         raise ToolError("vh replay wrote no summary")
     ctx.replayed += summary["replayed"]
@@ -118,7 +125,7 @@ def stage_record(ctx):
         return
     n = cfg["record"][ctx.tier]
     tf = os.path.join(ctx.wd, "trace.ndjson")
-    rc, out, dt = lib.run([lib.VH, "record", ctx.pid, str(ctx.seed), str(n), ctx.tier, tf], timeout=cfg.get("record_timeout", 7200), env=ctx.env)
+    rc, out, dt = lib.run([lib.VH, "record", cfg.get("record_vh", ctx.pid), str(ctx.seed), str(n), ctx.tier, tf], timeout=cfg.get("record_timeout", 7200), env=ctx.env)
     if rc != 0:
         raise ToolError("vh record failed rc=%s\n%s" % (rc, out[-3000:]))
     parts = split_file(tf, cfg.get("trace_chunk", 1500))
@@ -135,7 +142,7 @@ def stage_record(ctx):
             lines = open(p).read().splitlines()
             for idx, expected in sorted(mism.items()):
                 rec = json.loads(lines[idx - 1])
-                ctx.failures.append(dict(source="trace", **{"in": rec["in"], "obs": rec["obs"], "exp": expected}))
+                ctx.failures.append(dict(source="trace", vh=cfg.get("record_vh", ctx.pid), **{"in": rec["in"], "obs": rec["obs"], "exp": expected}))
             if len(ctx.accepted_records) < 400:
                 for i, ln in enumerate(lines[:400]):
                     if (i + 1) not in mism and (i + 1) not in skips:
@@ -168,7 +175,7 @@ def stage_selftest(ctx):
         for r in good:
             f.write(json.dumps(r) + "\n")
     tf = os.path.join(ctx.wd, "selftest.ndjson")
-    rc, out, dt = lib.run([lib.VH, "corrupt", ctx.pid, src, tf], timeout=600, env=dict(ctx.env, VH_JOBS="1"))
+    rc, out, dt = lib.run([lib.VH, "corrupt", cfg.get("record_vh", ctx.pid), src, tf], timeout=600, env=dict(ctx.env, VH_JOBS="1"))
     if rc != 0:
         raise ToolError("vh corrupt failed rc=%s\n%s" % (rc, out[-3000:]))
     save = (ctx.states, ctx.transitions)
@@ -221,7 +228,7 @@ def classify(ctx):
         nviol += 1
         if nviol > 12:
             continue
-        case = dict(property=ctx.pid, source=v["source"], input=v["in"], expected_by_spec=v.get("exp"), observed=v.get("obs"),
+        case = dict(property=ctx.pid, source=v["source"], vh=v.get("vh", ctx.pid), input=v["in"], expected_by_spec=v.get("exp"), observed=v.get("obs"),
                     readable={k: lib.b2s(x) for k, x in v["in"].items()} if isinstance(v["in"], dict) else None,
                     reproduce="cd /verif && ./check %s --replay <this file>" % ctx.pid)
         path = lib.write_replay(ctx.pid, case)
@@ -249,6 +256,9 @@ def check(pid, tier, seed):
         stage_record(ctx)
         for extra in ctx.cfg.get("extra", []):
             getattr(P, extra)(ctx)
+        with open(os.path.join(lib.BUILD, "last_failures.%s.jsonl" % pid), "w") as ff:
+            for fl in ctx.failures:
+                ff.write(json.dumps(fl) + "\n")
         nviol, known = classify(ctx)
         selftest_error = None
         try:
@@ -277,9 +287,11 @@ def replay(pid, path):
     lib.build()
     case = json.load(open(path))
     wd = lib.workdir(pid + ".replay")
+    vh = case.get("vh", pid)
+    env = {"VH_BIN_DIR": lib.BIN_DIR, "VH_JOBS": "1"}
     inp = os.path.join(wd, "in.json")
     json.dump({"in": case["input"]}, open(inp, "w"))
-    rc, out, _ = lib.run([lib.VH, "run", pid, inp], timeout=600, env={"VH_BIN_DIR": lib.BIN_DIR})
+    rc, out, _ = lib.run([lib.VH, "run", vh, inp], timeout=600, env=env)
     if rc != 0:
         raise ToolError("vh run failed: " + out)
     obs = json.loads(out.strip().splitlines()[-1])
@@ -287,6 +299,18 @@ def replay(pid, path):
     print("expected: ", json.dumps(case.get("expected_by_spec"))[:2000])
     print("observed: ", json.dumps(obs)[:2000])
     cfg = P.PROPS[pid]
+    if case.get("source") == "replay":
+        # a TLC-generated vector: the harness compares the prescribed behaviour with the observation
+        vf, rf = os.path.join(wd, "v.jsonl"), os.path.join(wd, "r.jsonl")
+        open(vf, "w").write(json.dumps({"in": case["input"], "exp": case["expected_by_spec"]}) + "\n")
+        rc, out, _ = lib.run([lib.VH, "replay", vh, vf, rf], timeout=600, env=env)
+        if rc != 0:
+            raise ToolError("vh replay failed: " + out)
+        if any(json.loads(l).get("fail") for l in open(rf)):
+            print("VIOLATION property=%s replay=%s" % (pid, path))
+            return 1
+        print("the real code now behaves as the specification prescribes")
+        return 0
     if "trace" not in cfg:
         return 0
     tf = os.path.join(wd, "one.ndjson")
